@@ -114,7 +114,9 @@ class TranslatorBase(object):
         cond = implies(self.guard, cond)
         if cond.is_const() and cond.cval():
             return
-        self.emit(Assert(cond, label, kind))
+        a = Assert(cond, label, kind)
+        a.fname = self.frames[-1].fname if self.frames else ''
+        self.emit(a)
 
     # ------------------------------------------------------------------------------------------- types / objects
     def static_eval(self, cls, cfg, name):
